@@ -197,9 +197,13 @@ Section UMNFacts.
       + now apply IH in H.
       + destruct n as [|c n']; [discriminate|].
         destruct (is_dot (c :: n')) eqn:Dt; simpl.
-        * destruct (w_isdir w (c :: n')); [now apply IH in H|].
-          destruct (w_text w (c :: n')) as [t|]; [|discriminate].
-          destruct (plf None t) as [l1|]; simpl in H; [|discriminate]. now apply IH in H.
+        * destruct (fx_dot_safe fx).
+          -- destruct (w_stat w (c :: n')) as [[| |]|]; try (now apply IH in H).
+             destruct (w_text w (c :: n')) as [t|]; [|now apply IH in H].
+             destruct (plf None t) as [l1|]; simpl in H; [|discriminate]. now apply IH in H.
+          -- destruct (w_isdir w (c :: n')); [now apply IH in H|].
+             destruct (w_text w (c :: n')) as [t|]; [|discriminate].
+             destruct (plf None t) as [l1|]; simpl in H; [|discriminate]. now apply IH in H.
         * apply IH in H. rewrite H, <- app_assoc. reflexivity.
   Qed.
 
